@@ -103,6 +103,10 @@ def history_job(case):
             elif op == "bath":
                 bath = oqupy.Bath(0.5 * SZ, c)
                 observed.append(h["obs"])
+            elif op == "setb":
+                x = bath.correlations
+                x.alpha = ALPHA[arg]
+                observed.append(arg)
             elif op == "battr":
                 a = bath.correlations.alpha
                 observed.append(next((v for v, al in ALPHA.items() if al == a), None))
@@ -646,7 +650,7 @@ def run(ctx):
     consts = {"Versions": "1..2", "Args": "1..2", "MaxOps": "4" if quick else "5", "UseKinds": '{"tempo"}', "Emit": "TRUE"}
     strict = ctx.tlc("ObjectGraph", CFG, label="strict: Freshness and Isolation over all histories", workers=4,
                      constants=dict(consts, Devs="{}"))
-    for dev in ("StaleEtaCache", "CopyClosure"):
+    for dev in ("StaleEtaCache", "CopyClosure", "HandsOutOwn"):
         r = ctx.tlc("ObjectGraph", CFG, label="deviation %s (must violate)" % dev, workers=4, must_hold=False,
                     constants=dict(consts, Devs='{"%s"}' % dev, Emit="FALSE"))
         if r.ok:
@@ -660,7 +664,7 @@ def run(ctx):
     res = core.pmap(history_job, cases, chunksize=8)
     for c, r in zip(cases, res):
         cid = {"history": [[h["op"], h["arg"]] for h in c["hist"]]}
-        ctx.case(cid, nontrivial=any(h["op"] == "set" for h in c["hist"]))
+        ctx.case(cid, nontrivial=any(h["op"] in ("set", "setb") for h in c["hist"]))
         if r["observed"] is None:
             ctx.violation("C20:history:exception", "%s: %s" % (cid, r["error"]), {"history": c})
             continue
